@@ -2663,7 +2663,10 @@ func (p *parser) parseLambdaExpr(allowTuple, allowCmd, allowRangeExpr bool) (x a
 			}
 			last = p.expect(token.RPAREN) + 1
 		case token.LBRACE: // {
+			// the body is a function body: it has its own label scope
+			p.openLabelScope()
 			body = p.parseBlockStmt()
+			p.closeLabelScope()
 		default:
 			rhs = []ast.Expr{p.parseExpr(false, false, false)}
 			last = rhs[0].End()
